@@ -2574,6 +2574,7 @@ setattr_delegate(
     PyObject *temp;
     has_traits_object *delegate;
     has_traits_object *temp_delegate;
+    PyObject *held = NULL; /* owned reference keeping 'delegate' alive */
     int i, result;
 
     /* Follow the delegation chain until we find a non-delegated trait: */
@@ -2586,6 +2587,9 @@ setattr_delegate(
             && ((temp_delegate = (has_traits_object *)PyDict_GetItem(
                      dict, traitd->delegate_name))
                 != NULL)) {
+            Py_INCREF(temp_delegate);
+            Py_XDECREF(held);
+            held = (PyObject *)temp_delegate;
             delegate = temp_delegate;
         }
         else {
@@ -2594,14 +2598,19 @@ setattr_delegate(
             delegate = (has_traits_object *)has_traits_getattro(
                 delegate, traitd->delegate_name);
             if (delegate == NULL) {
+                Py_XDECREF(held);
                 Py_DECREF(daname);
                 return -1;
             }
-            Py_DECREF(delegate);
+            /* The object may be a temporary (e.g. made by a property
+               getter): keep the reference for as long as it is used. */
+            Py_XDECREF(held);
+            held = (PyObject *)delegate;
         }
 
         // Verify that 'delegate' is of type 'CHasTraits':
         if (!PyHasTraits_Check(delegate)) {
+            Py_XDECREF(held);
             Py_DECREF(daname);
             return bad_delegate_error2(obj, name);
         }
@@ -2617,11 +2626,13 @@ setattr_delegate(
                      delegate->ctrait_dict, daname))
                 == NULL)
             && ((traitd = get_prefix_trait(delegate, daname, 1)) == NULL)) {
+            Py_XDECREF(held);
             Py_DECREF(daname);
             return bad_delegate_error(obj, name);
         }
 
         if (Py_TYPE(traitd) != ctrait_type) {
+            Py_XDECREF(held);
             Py_DECREF(daname);
             return fatal_trait_error();
         }
@@ -2645,12 +2656,15 @@ setattr_delegate(
                     }
                 }
             }
+            Py_XDECREF(held);
             Py_DECREF(daname);
 
             return result;
         }
 
         if (++i >= 100) {
+            Py_XDECREF(held);
+            Py_DECREF(daname);
             return delegation_recursion_error(obj, name);
         }
     }
